@@ -84,6 +84,16 @@ class CaptureMap:
 
     # translation: list of variants ------------------------------------------
     def tr_all(self, t, structural_only=False, use_eqs=True):
+        busy = self.__dict__.setdefault("_busy", set())
+        if t in busy or len(busy) > 200:
+            return []           # an equation cycle (a == f(b), b == g(a)): no translation along this branch
+        busy.add(t)
+        try:
+            return self._tr_all_guarded(t, structural_only, use_eqs)
+        finally:
+            busy.discard(t)
+
+    def _tr_all_guarded(self, t, structural_only, use_eqs):
         out = self._tr_all(t, structural_only)
         if not out and use_eqs and isinstance(t, tuple):
             for y in self.eqs.get(t, ()):
